@@ -1,1 +1,176 @@
-From FileIO Require Import Pwrite FdTable Raw TiffFail SideBySide Hal.
+(* Properties_C14.v -- C14: raw files contain exactly the appended frames, byte for byte.
+
+   "The file written by the raw storage device during an acquisition consists of precisely the frames appended during
+    that acquisition, headers and pixel bytes, back to back and in order, whatever the packet boundaries, frame sizes,
+    short writes by the operating system, plain or file:// form of the URI, or earlier acquisitions made with the same
+    device to other paths."
+
+   Models (statement by statement, of the code WITH the repairs fixes/01 and fixes/02 and with file_create truncating
+   the file it has locked, as /repo does since 468e0c6):
+     Pwrite.v   file_write of linux/platform.c as a loop over an operating system that answers every pwrite with any
+                count 0..remaining or an error;
+     FdTable.v  the descriptor table (lowest free number), a flat file system, create / write scripts, the system-call
+                log, file_create / file_close / file_write / file_is_writable;
+     Raw.v      raw_set / raw_start / raw_append / raw_stop / raw_destroy;   Hal.v  the HAL storage_* wrappers, histories.
+   A packet is an arbitrary byte string: frame headers and pixel bytes are not interpreted by raw.c, so "every frame-size
+   sequence and every grouping of frames into packets" is "every list of byte strings".
+
+   This file contains statements only; every proof is [exact <lemma of PwriteProofs.v / C14Proofs.v>]. *)
+From Coq Require Import String.
+From Coq Require Import List Arith NArith Bool.
+From FileIO Require Import Pwrite FdTable Raw TiffFail SideBySide Hal Spec PwriteProofs C14Proofs.
+Import ListNotations.
+Local Open Scope nat_scope.
+Local Open Scope list_scope.
+
+(* ---------------------------------------------------------------------------------------------------------------
+   Pwrite_all.  [ws] is the operating system's answer to the k-th pwrite call (any count, or an error), [pat] the
+   counts delivered to this file_write call.  For EVERY short-write pattern that delivers all bytes with fewer than
+   three zero-length results and no error, the loop returns 1, the file holds the buffer at [off, off+n), and every
+   other byte is what it was (a byte beyond the old end of file reads as zero: the hole POSIX leaves). *)
+Theorem Pwrite_all :
+  forall ws pat k f off buf,
+    delivers ws k (length buf) pat -> list_sum pat = length buf -> zeros pat < 3 ->
+    exists k' f', file_write1 ws (k, f) off buf = ((k', f'), true) /\ k' <= k + length pat /\
+      f' = pwrite_file f off buf /\
+      (forall i, i < length buf -> nth (off + i) f' 0%N = nth i buf 0%N) /\
+      (forall i, i < off \/ off + length buf <= i -> nth i f' 0%N = nth i f 0%N).
+Proof. exact pwrite_all. Qed.
+Print Assumptions Pwrite_all.
+
+(* Pwrite_fail.  Otherwise (an error, three zero-length results, or a script that never delivers everything) it
+   returns 0 ... *)
+Theorem Pwrite_fail :
+  forall ws k f off buf k' f' b,
+    file_write1 ws (k, f) off buf = ((k', f'), b) ->
+    (forall pat, delivers ws k (length buf) pat -> list_sum pat = length buf -> zeros pat < 3 -> False) ->
+    b = false.
+Proof. exact pwrite_fail. Qed.
+Print Assumptions Pwrite_fail.
+
+(* ... and whatever it returns, what it has written is a prefix of the buffer, in place, and nothing else. *)
+Theorem Pwrite_frame :
+  forall ws k f off buf k' f' b,
+    file_write1 ws (k, f) off buf = ((k', f'), b) ->
+    exists m, m <= length buf /\ f' = pwrite_file f off (firstn m buf) /\ (b = true -> m = length buf).
+Proof. exact file_write1_frame. Qed.
+Print Assumptions Pwrite_frame.
+
+(* the converse of Pwrite_all: a return value of 1 was produced by such a pattern *)
+Theorem Pwrite_true :
+  forall ws k f off buf k' f',
+    file_write1 ws (k, f) off buf = ((k', f'), true) ->
+    exists pat, delivers ws k (length buf) pat /\ list_sum pat = length buf /\ zeros pat < 3 /\ k' = k + length pat.
+Proof. exact file_write1_true. Qed.
+Print Assumptions Pwrite_true.
+
+(* ---------------------------------------------------------------------------------------------------------------
+   C14_exact.  [cycles] is ANY list of acquisitions (uri, packets) run through the HAL on one raw device as
+   set, start, append*, stop; [o] is ANY state of the operating system (descriptor table, existing files, create and
+   write scripts: every short-write pattern, every fault); the device is a fresh one (raw_init).  If every call of the
+   history answered Device_Ok -- for the appends this is, by Pwrite_all / Pwrite_fail / Pwrite_true, exactly the case
+   that every packet met an admissible short-write pattern -- then the file of each acquisition consists of precisely
+   the bytes appended during that acquisition, back to back and in order, provided no LATER acquisition of the history
+   went to the same path.  Earlier acquisitions to any path (the same one included, since file_create now truncates)
+   and later ones to other paths do not matter. *)
+Theorem C14_exact :
+  forall fuel cycles o rs d' o',
+    run fuel fixed (history cycles) (dev_init KRaw) o = Ret (rs, d', o') -> all_ok rs ->
+    forall pre c post, cycles = pre ++ c :: post -> (forall c', In c' post -> c_path c' <> c_path c) ->
+    fs o' (c_path c) = Some (c_bytes c).
+Proof. exact c14_exact. Qed.
+Print Assumptions C14_exact.
+
+(* the same for a device that is not fresh: any raw device that is idle (not running, no file open) *)
+Theorem C14_exact_any_idle_device :
+  forall fuel cycles r o rs d' o',
+    r_open r = false -> r_state r <> Running ->
+    run fuel fixed (history cycles) (DRaw r) o = Ret (rs, d', o') -> all_ok rs ->
+    forall pre c post, cycles = pre ++ c :: post -> (forall c', In c' post -> c_path c' <> c_path c) ->
+    fs o' (c_path c) = Some (c_bytes c).
+Proof. exact raw_files_exact. Qed.
+Print Assumptions C14_exact_any_idle_device.
+
+(* Not proved as a theorem (kept visible): the formulation with the premise on the SCRIPTS instead of on the answers,
+     forall cycles ws, (every open succeeds) -> admissible ws 0 (all packets of all cycles, in order) ->
+       all_ok rs /\ the conclusion of C14_exact,
+   where [admissible ws k (b :: rest)] says that some pattern [pat] with [delivers ws k (length b) pat], sum = length b,
+   fewer than three zeros and no trailing zero exists and [admissible ws (k + length pat) rest].  It follows from
+   C14_exact, Pwrite_all and a simulation of FdTable.os_pwrite by Pwrite.prim1 (same loop, Pwrite.fw_loop, instantiated
+   twice); what is missing is that simulation lemma and the bookkeeping of the global pwrite index.  The correspondence
+   run of the check exercises exactly this formulation (scripts are the input, answers are compared). *)
+
+(* ---------------------------------------------------------------------------------------------------------------
+   C14_uri.  "file://p" and "p" name the same file: the prefix is stripped before anything else happens, in raw_set
+   and in the set functions of the other kinds alike; a name that does not itself begin with file:// is untouched. *)
+Theorem C14_uri :
+  forall p,
+    strip ("file://" ++ p) = p /\
+    (drop_prefix "file://" p = None -> strip p = p) /\
+    (drop_prefix "file://" p = None -> forall meta d o, hal_set ("file://" ++ p) meta d o = hal_set p meta d o).
+Proof. exact c14_uri. Qed.
+Print Assumptions C14_uri.
+
+(* ===============================================================================================================
+   Non-vacuity: the hypotheses are met by reachable, non-trivial histories. *)
+Definition bytes_of (l : list nat) : list byte := map N.of_nat l.
+
+(* first call: 1 byte, then a zero-length result, then the rest; ... ; two zero-length results before the last packet *)
+Definition ws_ex (k : nat) : wresp :=
+  nth k [WCount 1; WCount 0; WFull; WCount 2; WCount 0; WCount 0; WFull] WFull.
+Definition os_ex : os := os_init [0; 1; 2] (fun _ => COk) ws_ex.
+Definition cyc_a := mkCycle "file://a.raw" [bytes_of [1; 2; 3]; bytes_of []; bytes_of [4; 5]].
+Definition cyc_b := mkCycle "b.raw" [bytes_of [6; 7]].
+Definition cyc_a' := mkCycle "a.raw" [bytes_of [9]].
+
+Example Pwrite_all_example :
+  delivers ws_ex 0 3 [1; 0; 2] /\ list_sum [1; 0; 2] = 3 /\ zeros [1; 0; 2] < 3 /\
+  file_write1 ws_ex (0, bytes_of [8; 8]) 4 (bytes_of [1; 2; 3]) = ((3, bytes_of [8; 8; 0; 0; 1; 2; 3]), true).
+Proof. vm_compute. repeat split; auto. Qed.
+
+Example Pwrite_fail_example :     (* three zero-length results *)
+  file_write1 (fun _ => WCount 0) (0, []) 0 (bytes_of [1]) = ((3, []), false) /\
+  file_write1 (fun k => if k =? 1 then WErr else WCount 1) (0, []) 0 (bytes_of [1; 2]) = ((2, bytes_of [1]), false).
+Proof. vm_compute. auto. Qed.
+
+(* two acquisitions to different paths, short writes in both, both uri spellings, an empty packet *)
+Example C14_exact_example :
+  exists rs d' o',
+    run FUEL fixed (history [cyc_a; cyc_b]) (dev_init KRaw) os_ex = Ret (rs, d', o') /\ all_ok rs /\
+    length rs = 10 /\
+    fs o' "a.raw" = Some (bytes_of [1; 2; 3; 4; 5]) /\ fs o' "b.raw" = Some (bytes_of [6; 7]) /\
+    trace o' =
+      [EOpen "a.raw" (Some 3); EClose (Some 3) true;                       (* set: writability probe *)
+       EOpen "a.raw" (Some 3); ELock 3 true;                               (* start *)
+       EWrite (Some 3) 0 3 (Some 1); EWrite (Some 3) 1 2 (Some 0); EWrite (Some 3) 1 2 (Some 2);
+       EWrite (Some 3) 3 2 (Some 2);
+       EClose (Some 3) true;                                               (* stop *)
+       EOpen "b.raw" (Some 3); EClose (Some 3) true; EOpen "b.raw" (Some 3); ELock 3 true;
+       EWrite (Some 3) 0 2 (Some 0); EWrite (Some 3) 0 2 (Some 0); EWrite (Some 3) 0 2 (Some 2);
+       EClose (Some 3) true].
+Proof.
+  eexists _, _, _. split; [vm_compute; reflexivity|]. split; [repeat constructor|]. vm_compute. auto.
+Qed.
+
+(* a later acquisition to the SAME path replaces the file (outside the property's "other paths", covered anyway) *)
+Example C14_same_path_example :
+  exists rs d' o',
+    run FUEL fixed (history [cyc_a; cyc_a']) (dev_init KRaw) os_ex = Ret (rs, d', o') /\ all_ok rs /\
+    fs o' "a.raw" = Some (bytes_of [9]).
+Proof.
+  eexists _, _, _. split; [vm_compute; reflexivity|]. split; [repeat constructor|]. vm_compute. auto.
+Qed.
+
+(* ===============================================================================================================
+   Sensitivity: without repair 01 (D3: raw_start does not reset the offset) the model produces exactly the file the
+   theorem excludes -- the second acquisition's file begins with a hole as long as the first file.  This is the defect
+   confirmed on the unrepaired /repo; corpus/C14/d3_offset_not_reset.json replays it on the real code. *)
+Definition without_d3 : variant := mkVariant false true true true true.
+
+Example D3_unrepaired_hole :
+  exists rs d' o',
+    run FUEL without_d3 (history [cyc_a; cyc_b]) (dev_init KRaw) os_ex = Ret (rs, d', o') /\ all_ok rs /\
+    fs o' "b.raw" = Some (bytes_of [0; 0; 0; 0; 0; 6; 7]).
+Proof.
+  eexists _, _, _. split; [vm_compute; reflexivity|]. split; [repeat constructor|]. vm_compute. auto.
+Qed.
